@@ -206,6 +206,18 @@ def waitpid_hook(pid, flags):
     raise OSError('No child processes')
 
 
+def kill_hook(pid, sig):
+    """os.kill() of the emulated dump child: it dies before it does anything more (what it may have written so far
+    is its temporary file only)."""
+    b = CUR[0]
+    if b.extra.get('childpid') != pid:
+        raise OSError('No such process')
+    if 'child' in b.extra:
+        b.extra.pop('child')
+        b.extra['childdone'] = 9
+    return None
+
+
 def run_fork_child(b):
     """Event Cf: the forked child runs the real child path of Serializer.serialize on its image."""
     import copy
@@ -241,6 +253,7 @@ def _child_exit(code):
 vfs.FAKE_OS.fork_hook = fork_parent_hook
 vfs.FAKE_OS.waitpid_hook = waitpid_hook
 vfs.FAKE_OS.exit_hook = _child_exit
+vfs.FAKE_OS.kill_hook = kill_hook
 
 
 class Recorder(object):
